@@ -212,6 +212,27 @@ def mon_thresholds(case, lines, meta):
     return None
 
 
+def mon_timeout_due(case, lines, meta):
+    """'failed or TIMED-OUT checks': a check is cut off (counted as timed out) only when it has run for the configured
+    timeout, and a check that answers within the timeout is never cut off — whatever earlier rounds did"""
+    c = kvs(case["header"])
+    to = int(c.get("to", "0") or 0)
+    start = {}
+    for l in lines:
+        t, w = tparse(l)
+        if not w:
+            continue
+        if w[0] == "check_start":
+            start[w[1]] = t
+        elif w[0] == "check_done":
+            start.pop(w[1], None)
+        elif w[0] == "check_drop":
+            t0 = start.pop(w[1], None)
+            if t0 is not None and to > 0 and t - t0 < to:
+                return "resource %s: check started at t=%d was cut off as timed out at t=%d, after %d < timeout %d" % (w[1], t0, t, t - t0, to)
+    return None
+
+
 def mon_selection(case, lines, meta):
     """second sentence: soundness of get_healthy / get_usable, none iff none qualifies (built-in
     strategies; a custom selector may decline), round-robin evenness over a fixed eligible set"""
@@ -328,7 +349,7 @@ SPECS = {
         "module": "TR.Props.C18",
         "gen": gen,
         "canon": canon,
-        "monitors": [("c18-status-flips-only-at-thresholds", mon_thresholds), ("c18-selection-sound-and-even", mon_selection)],
+        "monitors": [("c18-status-flips-only-at-thresholds", mon_thresholds), ("c18-selection-sound-and-even", mon_selection), ("c18-timed-out-means-timeout-elapsed", mon_timeout_due)],
         "transitions": transitions,
         "nontrivial": nontrivial,
         "all_transitions": ALL_TRANSITIONS,
